@@ -5,3 +5,4 @@ import LA.Props.C05
 import LA.Props.C06
 import LA.Props.C08
 import LA.Props.C17
+import LA.Props.C19
